@@ -876,7 +876,10 @@ class Generator(TreeListener):
                     "the correct dimensions.".format(symbol_name)
                 )
 
-            for index, dim in zip(index_array, shape):
+            # A reference with fewer subscripts than dimensions selects everything in the missing
+            # (trailing) dimensions: x[2] on Real x[2,3] is the row x[2,:].
+            padded_index_array = list(index_array) + [None] * (len(shape) - len(index_array))
+            for index, dim in zip(padded_index_array, shape):
                 if index is None and dim is None:
                     continue
 
